@@ -359,6 +359,30 @@ static void do_op(const char *op, int a, int b, const char *text)
     }
 #endif
 #ifndef SIMC
+    else if (!strcmp(op, "arr_pp")) {
+        /* caller-owned memory through an 'int **' output argument */
+        sim_phase(1);
+        SIM_SHROUD_memory_destructor(&caps[b]);
+        SIM_arr_fill_ptr_bufferify(&d, a);
+        caps[b] = d.cxx; sim_phase(0);
+        int *p = (int *)d.addr.base; int len = (int)d.size;
+        long s = 0; for (int i = 0; i < len; i++) s += p[i];
+        res_arr(len, s);
+    }
+#endif
+#ifndef SIMC
+    else if (!strcmp(op, "arr_gref")) {
+        /* ... and through an 'int *&' output argument */
+        sim_phase(1);
+        SIM_SHROUD_memory_destructor(&caps[b]);
+        SIM_arr_grab_ref_bufferify(&d, a);
+        caps[b] = d.cxx; sim_phase(0);
+        int *p = (int *)d.addr.base; int len = (int)d.size;
+        long s = 0; for (int i = 0; i < len; i++) s += p[i];
+        res_arr(len, s);
+    }
+#endif
+#ifndef SIMC
     else if (!strcmp(op, "arr_sum")) {
         int *v = (int *)exact(sizeof(int) * a); for (int i = 0; i < a; i++) v[i] = 3 * (i + 1);
         sim_phase(1); int r = SIM_arr_sum(v, a); sim_phase(0); res_int(r); free(v);
